@@ -252,8 +252,12 @@ def read_timedelta_i64(buffer: IO[bytes]) -> i64Timedelta:
     return datetime.timedelta(milliseconds=read_int64(buffer))  # type: ignore[return-value]
 
 
+_epoch: Final = datetime.datetime.fromtimestamp(0, datetime.UTC)
+
+
 def tz_aware_from_i64(timestamp: i64) -> TZAware:
-    dt = datetime.datetime.fromtimestamp(timestamp / 1000, datetime.UTC)
+    # Use exact arithmetic, dividing into a float loses milliseconds.
+    dt = _epoch + datetime.timedelta(milliseconds=timestamp)
     try:
         return TZAware.truncate(dt)
     except TypeError as exception:
